@@ -461,6 +461,11 @@ def run_part(args, flavours, wd, rl, par, drv_ok=True, sigfn=None):
                 problems.append("model-internal: Model.UserFunc reports a replacement loop that does not end (C03_function_never_hangs says it cannot)")
             if kv.get("cons") == "0":
                 problems.append("model-internal: the function model's events are not ones the SPEC accepts: " + rq[:300])
+            if c.recursive and oc.token() in ("2", "3"):
+                # endless recursion has no value: reporting it and ending with an error status is a documented end
+                # (since the repair 463cfd3 asl does so; the manual does not define recursive functions)
+                dist["func_recursive_reported"] = dist.get("func_recursive_reported", 0) + 1
+                continue
             if kv.get("specok") != "1":
                 sg = None
                 if c.recursive and (oc.token() in ("sig11", "sig6") or (oc.kind == "san" and re.search(rb"stack-overflow", oc.err))):
